@@ -65,21 +65,26 @@ structure TDefects where
       holds of `interface{}`): `Fa(0)` annotates the literal `interface{}`; repaired by 57c7777 (the
       literal keeps `int`; found through operator overloading, C17) -/
   retypeIfaceParam : Bool
+  /-- `FunctionNode.Fast` is set for every variadic function whose only parameter is `...X` and whose
+      result is `Y` with `X`, `Y` merely of interface *kind* (`...error`, `error`), and for named func
+      types; the VM's `OpCallFast` asserts exactly `func(...interface{}) interface{}` and panics with an
+      interface conversion.  Repaired by 6ec68be -/
+  fastInexact : Bool
   deriving DecidableEq, Repr
 
 /-- the pinned snapshot -/
-def TDefects.asWas : TDefects := ⟨true, true, true, true, true, true, true, true, true, true, true, true, true, true, true⟩
+def TDefects.asWas : TDefects := ⟨true, true, true, true, true, true, true, true, true, true, true, true, true, true, true, true⟩
 /-- /repo's current HEAD: after the `fix:` commits 76735a9 (located error first), b6f8e35 (`AsBool` on the
 nil type), 6162013 (numeric-only literal retyping), 106fb38 (closure with a nil-typed body), e2e7046 (`in`
 needs a usable key), 265c5fa (no slicing of maps), a03872c (computed map-literal key must be a string),
 911e74d (ConstantNode), 390c455 (type of a conditional), f1ac5c8 (slicing an array), 57c7777 (no retyping to an
-`interface{}` parameter).  The loose index rule and the static slice types of `filter`/`map` are pinned by
+`interface{}` parameter), 6ec68be (`Fast` only for exactly `func(...interface{}) interface{}`).  The loose index rule and the static slice types of `filter`/`map` are pinned by
 /repo's own tests and remain, as does `combined` on interface operands. -/
-def TDefects.asIs : TDefects := ⟨false, true, false, false, true, false, false, false, false, false, true, false, true, false, false⟩
-def TDefects.repaired : TDefects := ⟨false, false, false, false, false, false, false, false, false, false, false, false, false, false, false⟩
+def TDefects.asIs : TDefects := ⟨false, true, false, false, true, false, false, false, false, false, true, false, true, false, false, false⟩
+def TDefects.repaired : TDefects := ⟨false, false, false, false, false, false, false, false, false, false, false, false, false, false, false, false⟩
 /-- intermediate flag sets used for self-tests against partially patched copies of the repository -/
-def TDefects.safeFix : TDefects := ⟨false, true, false, false, true, false, true, true, true, true, true, true, true, true, true⟩
-def TDefects.safeFix2 : TDefects := ⟨false, true, false, false, true, false, false, false, false, true, true, true, true, true, true⟩
+def TDefects.safeFix : TDefects := ⟨false, true, false, false, true, false, true, true, true, true, true, true, true, true, true, true⟩
+def TDefects.safeFix2 : TDefects := ⟨false, true, false, false, true, false, false, false, false, true, true, true, true, true, true, true⟩
 
 inductive Expect where
   | none | bool | int64 | float64
@@ -277,14 +282,25 @@ def retypes (dt : TDefects) (a : Node) (inT : OTy) : Bool :=
   isIntegerOrArith a && retypeOk dt inT && (dt.retypeNonLiteral || intLiteralTree a)
 
 /-- the `Fast` flag of `FunctionNode` -/
-def fastCall (fn : Ty) (method : Bool) : Bool :=
+def Ty.isDefined : Ty → Bool
+  | .named _ _ _ | .ref _ => true
+  | _ => false
+
+def fastCall (dt : TDefects) (fn : Ty) (method : Bool) : Bool :=
   match fn.funcParts with
   | some (ins, v, outs) =>
     fn.kind != .iface && v && ins.length == (if method then 2 else 1) && outs.length == 1 &&
-    (match outs with | [o] => o.kind == .iface | _ => false) &&
-    (match ins.getLast? with
-      | some rest => rest.kind == .slice && (rest.elem?.map Ty.kind) == some .iface
-      | none => false)
+    (if dt.fastInexact then
+      (match outs with | [o] => o.kind == .iface | _ => false) &&
+      (match ins.getLast? with
+        | some rest => rest.kind == .slice && (rest.elem?.map Ty.kind) == some .iface
+        | none => false)
+     else
+      -- exactly `func(...interface{}) interface{}`, not a defined func type
+      (match outs with | [o] => o == interfaceType | _ => false) && !fn.isDefined &&
+      (match ins.getLast? with
+        | some rest => rest.kind == .slice && rest.elem? == some interfaceType
+        | none => false))
   | none => false
 
 def isIndexOk (dt : TDefects) (container i : OTy) : Bool :=
@@ -588,7 +604,7 @@ def visit (cfg : CheckCfg) : Node → CState → Node × OTy × CState
   | .func m name args fast, st =>
     match funcTargetC cfg name with
     | some (fn, isMethod) =>
-      let fast' := fastCall fn isMethod
+      let fast' := fastCall cfg.dt fn isMethod
       match funcPlan fn isMethod args.length with
       | .inl rule =>
         let (r, st) := orFail rule m.loc st
